@@ -248,6 +248,77 @@ def check_module(ctx, spec, table, timeout_ms, report_q):
     return res, vios
 
 
+def check_generated(ctx, report, name, spec, table, timeout_ms):
+    """body comparison on a drawn description (obligations/gen.py): bodies with call / call_indirect / global / table /
+    memory / segment operands, locals, nested blocks, dead code"""
+    ob = common.Obligation('O1.3:' + name, 'description %s: every emitted body equals its input body up to nop/dead-code removal, empty else, renumbering of every index operand (recovered from the output), local re-grouping' % name)
+    try:
+        I, P = pc.new_pipeline(ctx)
+        oks, errs, panics = pc.parse_ok_paths(I, P, spec)
+        vios = []
+        for s in panics:
+            vios.append({'key': 'parse.panic', 'what': '[%s] parse panics: %r' % (name, pc.pipeline_panic_events(s)[:2]), 'spec': spec, 'model': None, 'pc': list(s.pc)})
+        for s, e in errs:
+            vios.append({'key': 'parse.rejects', 'what': '[%s] parse rejects the description' % name, 'spec': spec, 'model': None, 'pc': list(s.pc)})
+        IN = modcmp.in_module(spec)
+        types = [(tuple(p), tuple(r)) for p, r in spec.types]
+        nimp = sum(1 for i in spec.imports if i['kind'] == 'func')
+        n = 0
+        for s, module in oks:
+            for s2, rec, mref in P.run_emit(s, module):
+                if rec is PANIC:
+                    vios.append({'key': 'emit.panic', 'what': '[%s] emit panics: %r' % (name, pc.pipeline_panic_events(s2)[:2]), 'spec': spec, 'model': None, 'pc': list(s2.pc)})
+                    continue
+                n += 1
+                OUT = modcmp.out_module(rec)
+                C, pi = modcmp.compare_structure(spec, IN, OUT, spec.func_tags)
+                nimp_out = sum(1 for i in OUT['imports'] if i['kind'] == 'func')
+                for k, f in enumerate(spec.funcs):
+                    j = pi['func'].get(nimp + k)
+                    if j is None or not (0 <= j - nimp_out < len(OUT['code'])):
+                        vios.append({'key': 'body.missing', 'what': '[%s] function %d has no image in the output' % (name, k), 'spec': spec, 'model': None, 'pc': list(s2.pc)})
+                        continue
+                    body = OUT['code'][j - nimp_out]
+                    C2 = modcmp.Cmp()
+                    B = bodycmp.BodyCmp(table, pi, C2)
+                    B.compare(spec.func_tags[k], f['ops'], body['instrs'], types)
+                    nparams = len(types[f['type']][0])
+                    decl = []
+                    for cnt, vt in f.get('locals', []):
+                        decl += [vt] * cnt
+                    out_decl = []
+                    for cnt, vt in body['locals']:
+                        out_decl += [vt] * cnt
+                    for li, lo in B.local_map.items():
+                        if li < nparams:
+                            if lo != li:
+                                C2.bad.append(('body.local', '%s: parameter %d moved to slot %d' % (spec.func_tags[k], li, lo)))
+                        elif lo < nparams or lo - nparams >= len(out_decl):
+                            C2.bad.append(('body.local', '%s: local %d mapped to slot %d outside the declared locals %r' % (spec.func_tags[k], li, lo, body['locals'])))
+                        elif out_decl[lo - nparams] != decl[li - nparams]:
+                            C2.bad.append(('body.local', '%s: local %d of type %s got a slot of type %s' % (spec.func_tags[k], li, decl[li - nparams], out_decl[lo - nparams])))
+                    vios += [{'key': key, 'what': '[%s] %s' % (name, what), 'spec': spec, 'model': None, 'pc': list(s2.pc)} for key, what in C2.bad]
+                    for key, what, cond in C2.todo:
+                        sol = z3.Solver()
+                        sol.set('timeout', timeout_ms)
+                        sol.add(*s2.pc)
+                        sol.add(cond)
+                        report.queries += 1
+                        r = sol.check()
+                        if r == z3.unknown:
+                            raise Inconclusive('solver timeout')
+                        if r == z3.sat:
+                            vios.append({'key': key, 'what': '[%s] %s not preserved' % (name, what), 'spec': spec, 'model': sol.model()})
+        ob.detail = '%d emit paths, %d functions' % (n, len(spec.funcs))
+        from obligations import c14
+        c14.finish(ob, report, vios, n)
+    except Inconclusive as ex:
+        ob.status, ob.detail = 'inconclusive', str(ex)[:400]
+    except modcmp.Mismatch as ex:
+        ob.status, ob.detail = 'inconclusive', 'output record not understood: ' + str(ex)[:300]
+    report.add(ob)
+
+
 _G = {}
 
 
@@ -339,7 +410,12 @@ def run(tier, seed, only=None):
     s = _S()
     s.stats, s.models_used, s.fns_encoded = agg, used, enc
     ctx.interps.append(s)
-    report.bounds = {'skeletons': 'statement grammar {op, nop, return, unreachable, br d, br_if d, br_table, block, loop, if, if/else}, <= %d statements, nesting <= %d, all admissible branch depths: %d skeletons in the bound, %d checked in this run (%s) + %d typed shapes (result/multi-value/type-index block types, empty multi-value sequences, dead blocks, return_call, locals)' % (
+    # drawn descriptions with reference-carrying bodies
+    from obligations import gen
+    gl = [(n, sp) for n, sp in gen.generated(tier, seed, n_quick=12) if not only or n in only]
+    if gl:
+        pc.run_parallel(ctx, report, check_generated, [(n, sp, table, timeout_ms) for n, sp in gl])
+    report.bounds = {'generated': gen.bounds_text(tier, len(gl)), 'skeletons': 'statement grammar {op, nop, return, unreachable, br d, br_if d, br_table, block, loop, if, if/else}, <= %d statements, nesting <= %d, all admissible branch depths: %d skeletons in the bound, %d checked in this run (%s) + %d typed shapes (result/multi-value/type-index block types, empty multi-value sequences, dead blocks, return_call, locals)' % (
         budget, maxdepth, total, len(skels), 'all' if len(skels) == total else 'subset chosen by VERIF_SEED', len(typed)),
         'per module': '8 functions + 1 imported function, 6 types; constants are symbolic tags'}
     report.assumptions = ['execution is not performed: behaviour preservation is reduced to structural equality modulo the five rewrites listed in DESIGN.md C01 (trusted wasm-semantics facts)',
